@@ -98,3 +98,137 @@ def selection_native(vc):
     if opt == "bfgs":
         centre = 0.5 * (lo + hi)
         vc.ensures("at_least_as_good_as_centre_of_bounds", gp.model_selector(h) >= gp.model_selector(centre) - 1e-9)
+
+
+# ================================================================================================
+# proof layer: the real score functions over abstract matrices (pyvc.matalg)
+# ================================================================================================
+from pyvc import sym as S
+from pyvc.sym import Sym, Unsupported
+from pyvc.tensor import Tensor, SymList
+from pyvc import matalg as M
+
+REG = "inference.gp.regression"
+
+
+def _datom(st, k):
+    """d/dtheta_k of the atoms: K -> dK_k for covariance parameters, mu -> dmu_k for mean parameters"""
+    def d(a, t):
+        if a.name == "K" and k[0] == "cov":
+            return M.atom("dK", st.n, st.n, symmetric=True, params=(k[1],))
+        if a.name == "mu" and k[0] == "mean":
+            return M.atom("dmu", st.n, params=(k[1],))
+        return None
+    return d
+
+
+def _lml(st):
+    """log N(y; m, K+S) + n/2 log 2pi  =  -1/2 r^T C^-1 r - 1/2 logdet C"""
+    quad = st.r @ (st.Ci @ st.r)
+    return S.sub(S.mul(S.div(-1, 2), quad), S.mul(S.div(1, 2), M.logdet_of(st.C)))
+
+
+def _lml_grad(st, k):
+    """matrix calculus (assumed lemmas: d C^-1 = -C^-1 dC C^-1, d logdet C = tr(C^-1 dC)) applied mechanically to the
+    specification above"""
+    d = _datom(st, k)
+    r2 = st.r[:, None]                                  # column
+    quad = r2.T @ st.Ci @ r2                            # 1x1 matrix r^T C^-1 r
+    dquad = M.dmat(quad, d).scalar()
+    dC = M.dmat(st.C, d)
+    dlogdet = M.trace_of(st.Ci @ dC) if dC.nf else 0
+    return S.sub(S.mul(S.div(-1, 2), dquad), S.mul(S.div(1, 2), dlogdet))
+
+
+@contract("C11", "marginal_likelihood", native=False, replay_with="scores_native")
+def marginal_likelihood(vc):
+    from contracts.gp_matrix import GpState
+    st = GpState(vc)
+    gp = st.regressor(fitted=False)
+    val = vc.call(gp, "marginal_likelihood", st.theta)
+    vc.ensures("value_is_gaussian_log_density_of_the_data", S.cmp("==", val, _lml(st)))
+
+
+@contract("C11", "marginal_likelihood_gradient", native=False, replay_with="scores_native")
+def marginal_likelihood_gradient(vc):
+    from contracts.gp_matrix import GpState
+    st = GpState(vc)
+    gp = st.regressor(fitted=False)
+    val, grad = vc.call(gp, "marginal_likelihood_gradient", st.theta)
+    vc.ensures("value_is_gaussian_log_density_of_the_data", S.cmp("==", val, _lml(st)))
+    vc.ensures("one_gradient_entry_per_hyperparameter", vc.ndim(grad) == 1 and S.cmp("==", grad.shape[0], st.nm + st.nc))
+    vc.ensures_forall("mean_parameter_gradient_is_true_derivative", st.nm,
+                      lambda k: S.cmp("==", grad.at(k), _lml_grad(st, ("mean", S.z(k)))))
+    vc.ensures_forall("covariance_parameter_gradient_is_true_derivative", st.nc,
+                      lambda k: S.cmp("==", grad.at(S.add(k, st.nm)), _lml_grad(st, ("cov", S.z(k)))))
+
+
+def _loo_terms(vc, st):
+    # diagonal entries of the inverse of a positive-definite matrix are positive (assumed fact of the matrix layer)
+    if not getattr(st, "_ci_pos", False):
+        st._ci_pos = True
+        vc.assume_forall(st.n, lambda i: S.cmp(">", st.Ci.at(i, i), 0), "inverse-diagonal-positive")
+    a = st.Ci @ st.r                                       # C^-1 (y - m)
+    var = lambda i: S.div(1, st.Ci.at(i, i))               # leave-one-out predictive variance  (R&W 5.12)
+    mu = lambda i: S.sub(st.y.at(i), S.mul(a.at(i), var(i)))   # leave-one-out predictive mean
+    return a, var, mu
+
+
+def _loo(vc, st):
+    """sum_i log N(y_i; mu_-i, var_-i) + n/2 log 2pi = -1/2 sum_i [ (y_i - mu_-i)^2 / var_i + log var_i ]
+    with y_i - mu_-i = a_i var_i (R&W 5.10-5.12; the identity of these with an actual refit is the block-inverse lemma,
+    assumed -- and compared with a refit in the bounded layer)"""
+    a, var, mu = _loo_terms(vc, st)
+    return S.mul(S.div(-1, 2), vc.sum(st.n, lambda i: S.add(S.mul(var(i), S.mul(a.at(i), a.at(i))), vc.log(var(i)))))
+
+
+@contract("C11", "loo_predictions", native=False, replay_with="scores_native")
+def loo_predictions(vc):
+    from contracts.gp_matrix import GpState
+    st = GpState(vc)
+    gp = st.regressor()
+    a, var, mu = _loo_terms(vc, st)
+    m_, s_ = vc.call(gp, "loo_predictions")
+    vc.ensures_forall("mean_is_leave_one_out_mean", st.n, lambda i: S.cmp("==", m_.at(i), mu(i)))
+    vc.ensures_forall("std_is_root_of_leave_one_out_variance", st.n, lambda i: S.cmp("==", s_.at(i), vc.sqrt(var(i))))
+
+
+@contract("C11", "loo_likelihood", native=False, replay_with="scores_native")
+def loo_likelihood(vc):
+    from contracts.gp_matrix import GpState
+    st = GpState(vc)
+    gp = st.regressor(fitted=False)
+    spec = _loo(vc, st)
+    val = vc.call(gp, "loo_likelihood", st.theta)
+    vc.ensures("value_is_sum_of_leave_one_out_log_densities", S.cmp("==", val, spec))
+
+
+@contract("C11", "loo_likelihood_gradient", native=False, replay_with="scores_native")
+def loo_likelihood_gradient(vc):
+    from contracts.gp_matrix import GpState
+    st = GpState(vc)
+    gp = st.regressor(fitted=False)
+    spec = _loo(vc, st)
+
+    def true_grad(k):
+        d = _datom(st, k)
+        return vc.deriv(spec, lambda e: M.elem_derivative(e, d))
+
+    # the two per-parameter loops: after t iterations the list holds the true derivatives for parameters 0..t-1
+    import ast
+    func = vc.I.get_function(REG, "GpRegressor.loo_likelihood_gradient")
+    loops = [n for n in ast.walk(func.node) if isinstance(n, ast.For)]
+    from contracts.gp_matrix import MapLoop
+    for tag, lp in zip(("for#0", "for#1"), loops):
+        which = "cov" if "grad_K" in ast.unparse(lp.iter) else "mean"
+        names = [n.func.value.id for n in ast.walk(lp) if isinstance(n, ast.Call) and isinstance(n.func, ast.Attribute)
+                 and n.func.attr == "append" and isinstance(n.func.value, ast.Name)]
+        vc.loop("GpRegressor.loo_likelihood_gradient", tag,
+                MapLoop(vc, st, names, (lambda w: lambda t: true_grad((w, S.z(t))))(which), name=f"{which}_parameters"))
+    val, grad = vc.call(gp, "loo_likelihood_gradient", st.theta)
+    vc.ensures("value_is_sum_of_leave_one_out_log_densities", S.cmp("==", val, spec))
+    vc.ensures("one_gradient_entry_per_hyperparameter", vc.ndim(grad) == 1 and S.cmp("==", grad.shape[0], st.nm + st.nc))
+    vc.ensures_forall("mean_parameter_gradient_is_true_derivative", st.nm,
+                      lambda k: S.cmp("==", grad.at(k), true_grad(("mean", S.z(k)))))
+    vc.ensures_forall("covariance_parameter_gradient_is_true_derivative", st.nc,
+                      lambda k: S.cmp("==", grad.at(S.add(k, st.nm)), true_grad(("cov", S.z(k)))))
